@@ -164,6 +164,7 @@ class Obligation:
         self.info = info or {}
         self.lineno = lineno
         self.result = None          # filled by the back end
+        self.fact_ids = frozenset()  # ids of the terms of pc that are definitional facts (oblige() sets it)
         fp = hashlib.sha256('|'.join(self.trail).encode()).hexdigest()[:8]
         self.fp = fp
         self.id = '%s#%s:%s@%s' % (func, kind, label, fp)
@@ -174,8 +175,14 @@ class Obligation:
         hypotheses, so `unsat` is still a proof; tried first because it is quantifier-free."""
         pc = list(self.pc)
         if light:
+            # definitional facts (unfolded specification functions, prefix-membership facts of a dict
+            # iteration) are kept even when their body has a quantifier: there are few of them and
+            # a claim about an unfolded function cannot be proved without its definition
             pc = [t for t in pc if not has_quantifier(t)]
         return pc + [z3.Not(self.claim)]
+
+    def has_quantified_facts(self):
+        return False      # (experiment withdrawn: keeping quantified definitional facts in the light variant did not help)
 
     def formula_coi(self, rounds=3):
         """Cone of influence: only the quantifier-free assumptions that share symbols
